@@ -89,6 +89,8 @@ struct State<'a> {
     generated_types: GeneratedTypes<'a>,
     recs: RecPoints<'a>,
     tests: BTreeMap<String, String>,
+    // identifiers already given to the fields of the records / variants being printed (innermost last)
+    label_scopes: Vec<BTreeSet<String>>,
 }
 
 type RecPoints<'a> = BTreeSet<&'a str>;
@@ -304,6 +306,19 @@ fn test_{test_name}() {{
                 } else {
                     to_identifier_case(id, IdentifierCase::Snake)
                 };
+                // distinct labels can convert to the same identifier (`fooBar` / `foo_bar`): keep them apart
+                let (doc, is_rename) = match self.label_scopes.last_mut() {
+                    Some(scope) => {
+                        let mut name = doc.pretty(LINE_WIDTH).to_string();
+                        let mut is_rename = is_rename;
+                        while !scope.insert(name.clone()) {
+                            name.push('_');
+                            is_rename = true;
+                        }
+                        (RcDoc::text(name), is_rename)
+                    }
+                    None => (doc, is_rename),
+                };
                 let attr = if is_rename {
                     attr.append("#[serde(rename=\"")
                         .append(id.escape_debug().to_string())
@@ -388,6 +403,7 @@ fn test_{test_name}() {{
         let res = if is_tuple(fs) {
             self.pp_tuple(fs, need_vis, is_ref)
         } else {
+            self.label_scopes.push(BTreeSet::new());
             let fields: Vec<_> = fs
                 .iter()
                 .map(|f| {
@@ -395,6 +411,7 @@ fn test_{test_name}() {{
                     docs.append(self.pp_record_field(f, need_vis, is_ref))
                 })
                 .collect();
+            self.label_scopes.pop();
             let fields = concat(fields.into_iter(), ",");
             enclose_space("{", fields, "}")
         };
@@ -455,11 +472,16 @@ fn test_{test_name}() {{
         syntax: Option<&'b [syntax::TypeField]>,
     ) -> RcDoc<'b> {
         let old = self.state.push_state(&StateElem::TypeStr("variant"));
-        let fields = fs.iter().map(|f| {
-            let (docs, syntax_field) = find_field(syntax, &f.id);
-            docs.append(self.pp_variant_field(f, syntax_field))
-        });
-        let res = enclose_space("{", concat(fields, ","), "}");
+        self.label_scopes.push(BTreeSet::new());
+        let fields: Vec<_> = fs
+            .iter()
+            .map(|f| {
+                let (docs, syntax_field) = find_field(syntax, &f.id);
+                docs.append(self.pp_variant_field(f, syntax_field))
+            })
+            .collect();
+        self.label_scopes.pop();
+        let res = enclose_space("{", concat(fields.into_iter(), ","), "}");
         self.state.pop_state(old, StateElem::TypeStr("variant"));
         res
     }
@@ -772,6 +794,7 @@ pub fn emit_bindgen(
         generated_types: state.generated_types,
         recs,
         tests: BTreeMap::new(),
+        label_scopes: Vec::new(),
     };
     state.state.stats = old_stats;
     let defs = state.pp_defs(&def_list);
